@@ -109,6 +109,37 @@ let () =
           | None -> "-" | Some v -> string_of_int (int_of_n v)))
       | _ -> failwith "MG")
 
+(* ---- engine (fragment F)
+   TB                       begin a table
+   TE op nofor noback nchars c.. ndots d..
+   TI mode cap c c c ..     implementation-shaped engine;  TR ... reference engine
+   output: "T consumed | cells | posmap | trace"  or  "T UNSUPPORTED" / "T OUTOFFUEL"        *)
+let e_table : entry list ref = ref []
+let show_tresult = function
+  | TOk (c, cells, pm, tr) ->
+    "T " ^ string_of_int (int_of_z c) ^ " | " ^ show_zs cells ^ " | " ^ show_zs pm ^ " | " ^ show_zs tr
+  | TUnsupported -> "T UNSUPPORTED"
+  | TOutOfFuel -> "T OUTOFFUEL"
+let () =
+  reg "TB" (fun _ -> e_table := []; None);
+  reg "TE" (fun ws ->
+      (match ints ws with
+       | op :: nofor :: noback :: nc :: rest ->
+         let rec take n l = if n = 0 then ([], l) else (match l with x :: r -> let (a, b) = take (n - 1) r in (x :: a, b) | [] -> failwith "TE") in
+         let (cs, rest) = take nc rest in
+         (match rest with
+          | nd :: rest -> let (ds, _) = take nd rest in
+            e_table := !e_table @ [ { e_op = z_of_int op; e_chars = List.map z_of_int cs; e_dots = List.map z_of_int ds;
+                                      e_nofor = (nofor = 1); e_noback = (noback = 1) } ]
+          | [] -> failwith "TE")
+       | _ -> failwith "TE"); None);
+  reg "TI" (fun ws -> match ints ws with
+      | mode :: cap :: inp -> Some (show_tresult (translate_impl !e_table (z_of_int mode) (List.map z_of_int inp) (z_of_int cap)))
+      | _ -> failwith "TI");
+  reg "TR" (fun ws -> match ints ws with
+      | mode :: cap :: inp -> Some (show_tresult (translate_ref !e_table (z_of_int mode) (List.map z_of_int inp) (z_of_int cap)))
+      | _ -> failwith "TR")
+
 (* ---- log model: LR S <l> ; R <k> ; E <lvl> <c...> ; ... *)
 let () =
   reg "LR" (fun ws ->
